@@ -4,7 +4,7 @@ import math
 from hypothesis import strategies as st
 
 from .. import repo, strategies as S
-from ..core import SubCheck, Fail, Discard, metric, target
+from ..core import SubCheck, Fail, Discard, metric, target, is_seq
 from ..oracles import geodesic_exact as G
 
 RULE = ("start point anywhere (incl. equator and poles), azimuth in [0, 360] incl. cardinals, distance 0..20 000 km "
@@ -59,7 +59,7 @@ def check_direct(case):
         got = gd.vincdir(lat1=lat_o, lon1=lon_o, azimuth1to2=az_o, ell_dist=s_arg, ellipsoid=ell)
     else:
         got = gd.vincdir(lat_o, lon_o, az_o, s_arg, ell)
-    if not (isinstance(got, tuple) and len(got) == 3):
+    if not is_seq(got, 3):
         raise Fail("vincdir did not return (lat2, lon2, azimuth2to1)", observed=repr(got))
     lat2, lon2, az21 = got
     e_lat, e_lon, e_az = G.direct(lat1, lon1, az, case["s"], a, invf)
@@ -78,9 +78,12 @@ def check_direct(case):
                        observed={"azimuth2to1": az21, "diff_deg": da})
     if any(v != "float" for v in ks) or nk != "float":
         plain = gd.vincdir(lat1, lon1, az, case["s"], ell)
-        if tuple(plain) != tuple(got):
+        # "the same result": the same end point (a tenth of the stated millimetre) and the same direction (azimuths modulo 360,
+        # a tenth of the stated 1e-8 deg where the statement speaks of the azimuth at all)
+        dp = G.metric_distance(plain[0], plain[1], got[0], got[1], a, invf)
+        if not dp <= 1e-4 or (abs(e_lat) < 89.0 and not _angdiff(plain[2], got[2]) <= 1e-9):
             raise Fail("vincdir with angle objects differs from the call with their decimal-degree values",
-                       expected=plain, observed=got)
+                       expected=list(plain), observed=list(got))
 
 
 def _classes(case):
